@@ -10,20 +10,27 @@
 (***************************************************************************)
 EXTENDS BufferPool, Json
 
-CONSTANTS Slots, L, Tags, EmitEdges, WithFaults
+CONSTANTS Slots, L, Tags, EmitEdges, WithFaults, TrackPeak
 
 Lens == {0, 1, L - 1, L, L + 1, 2 * L}
 Vals == {Fill(n, t) : n \in Lens, t \in Tags}
 Junk(n) == Fill(n, "J")
 
-VARIABLES buf, act
-vars == <<buf, act>>
-View == buf
+(* peak: a history variable - the longest value each object has held since it was constructed.  An object whose    *)
+(* value is shorter than its peak has been shrunk, cleared or moved from: its in-object array or its block may     *)
+(* still hold the earlier units, which no public call shows and which a wrong fast path can resurrect.  The pool   *)
+(* specification does not depend on it; with TrackPeak it is part of the state identity, so that the generated     *)
+(* schedules reach every (value, peak) combination and execute every operation there (histories, not states).     *)
+VARIABLES buf, act, peak
+vars == <<buf, act, peak>>
+View == <<buf, peak>>
+Max(a, b) == IF a > b THEN a ELSE b
+PeakAfter(b2) == [s \in Slots |-> IF ~TrackPeak \/ b2[s] = Dead THEN 0 ELSE Max(peak[s], Len(b2[s].val))]
 
 Blk(s) == s          \* canonical block naming: a slot's block is named after the slot
 TagOf(v) == IF v = <<>> THEN "-" ELSE v[1]
 
-Init == buf = [s \in Slots |-> Dead] /\ act = [n |-> "init"]
+Init == buf = [s \in Slots |-> Dead] /\ act = [n |-> "init"] /\ peak = [s \in Slots |-> 0]
 
 Construct(s, v) ==
     /\ ConstructG(buf, s) /\ buf' = ConstructR(L, buf, s, v, Blk(s))
@@ -84,7 +91,7 @@ AllocateFault(s, n) ==
 MovedFromChoices(d, s) == {<<>>} \cup (IF IsLive(buf, s) THEN {buf[s].val} ELSE {})
                                \cup (IF IsLive(buf, d) THEN {buf[d].val} ELSE {})
 
-Next ==
+PoolNext ==
     \/ \E s \in Slots, v \in Vals : Construct(s, v) \/ ConstructFill(s, v) \/ AllocateFill(s, v)
     \/ \E d, s \in Slots : CopyConstruct(d, s) \/ CopyAssign(d, s) \/ Observe(d, s)
     \/ \E d, s \in Slots : \E mv \in MovedFromChoices(d, s) : MoveConstruct(d, s, mv) \/ MoveAssign(d, s, mv)
@@ -95,6 +102,7 @@ Next ==
           \/ \E d, s \in Slots : CopyConstructFault(d, s) \/ CopyAssignFault(d, s)
           \/ \E s \in Slots, n \in Lens : AllocateFault(s, n)
 
+Next == PoolNext /\ peak' = PeakAfter(buf')
 Spec == Init /\ [][Next]_vars
 
 ---------------------------------------------------------------------------
@@ -102,6 +110,8 @@ TypeOK == \A s \in Slots : buf[s] = Dead \/
               (buf[s].st = "live" /\ buf[s].stor \in {Self} \cup Slots)
 Representation == Valid(L, buf)                 \* StorageMode and Exclusive
 NoLeakByConstruction == Owned(buf) = {Blk(s) : s \in HeapSlots(buf)}
+
+PeakIsHistory == \A s \in Slots : IF buf[s] = Dead THEN peak[s] = 0 ELSE (~TrackPeak /\ peak[s] = 0) \/ peak[s] >= Len(buf[s].val)
 
 (* A step changes only the objects the operation names (copies are         *)
 (* independent, sources of copies and bystanders are untouched).           *)
@@ -118,6 +128,9 @@ FaultsAreClean == [][(act'.n \in {"fault construct", "fault constructfill", "fau
 SlotKey(r) == IF r = Dead THEN "D" ELSE ToString(Len(r.val)) \o TagOf(r.val) \o (IF r.stor = Self THEN "s" ELSE "h")
 RECURSIVE KeyFrom(_, _)
 KeyFrom(b, s) == IF s \notin Slots THEN "" ELSE SlotKey(b[s]) \o "." \o KeyFrom(b, s + 1)
+RECURSIVE PKeyFrom(_, _, _)
+PKeyFrom(b, pk, s) == IF s \notin Slots THEN ""
+                      ELSE SlotKey(b[s]) \o (IF TrackPeak /\ b[s] # Dead THEN "~" \o ToString(pk[s]) ELSE "") \o "." \o PKeyFrom(b, pk, s + 1)
 Key(b) == KeyFrom(b, 1)
-Emit == ~EmitEdges \/ PrintT("EDGE " \o ToJson([f |-> Key(buf), t |-> Key(buf'), a |-> act']))
+Emit == ~EmitEdges \/ PrintT("EDGE " \o ToJson([f |-> PKeyFrom(buf, peak, 1), t |-> PKeyFrom(buf', peak', 1), a |-> act']))
 =============================================================================
